@@ -43,6 +43,12 @@ Same(o, ents, size) == o.err = "" /\ o.ents = ents /\ o.size = size
 \* after a failed insert / delete the tree, persisted through a clone, still has the shape its recorded height promises
 Consistent(e) == e.pok /\ e.pheight = e.post.height /\ Shape(e.pterm, e.pheight, e.cfg.layers, e.cfg.nk + 1)
 
+\* the input classes of the recorded findings, in terms of the trees only (no reliance on the wording of error messages): a delete
+\* whose normal result is lower than the tree was, an insert whose normal result is taller
+KeysOf(ents) == {ents[i][1] : i \in DOMAIN ents}
+ShrinkingDelete(e, n) == e.call.op = "del" /\ RuleHeight(KeysOf(n.ents), e.cfg.layers, e.cfg.bf) < e.pre.height
+GrowingInsert(e, n) == e.call.op = "ins" /\ RuleHeight(KeysOf(n.ents), e.cfg.layers, e.cfg.bf) > e.pre.height
+
 C12(e) ==
   LET n0 == Normal(e)
       walk == e.call.op = "walk"
@@ -54,9 +60,9 @@ C12(e) ==
      ELSE IF e.res = "err" /\ n.res = "ok" THEN
           (IF Same(e.post, pre.ents, pre.size) /\ e.post.height = pre.height THEN {}
            \* named deviations (known findings, see known_findings.json): the input class that identifies each of them
-           ELSE IF e.call.op = "del" /\ e.phase = "shrink" /\ Same(e.post, n.ents, pre.size - 1) /\ Consistent(e)
+           ELSE IF ShrinkingDelete(e, n) /\ Same(e.post, n.ents, pre.size - 1) /\ Consistent(e)
                 THEN {V("Delete returned the error of its shrink step after having removed the entry")}
-           ELSE IF e.call.op = "ins" /\ e.phase = "grow" /\ e.post.err = "" /\ e.post.ents = n.ents /\ e.post.size = pre.size
+           ELSE IF GrowingInsert(e, n) /\ e.post.err = "" /\ e.post.ents = n.ents /\ e.post.size = pre.size
                 THEN {V("Insert returned the error of its grow step after having inserted the entry without counting it")}
            ELSE {V("an operation that returned an error changed the tree's contents, size or height")})
           \cup (IF ~(Same(e.post, pre.ents, pre.size) /\ e.post.height = pre.height) THEN {}     \* the retry of a changed tree proves nothing
@@ -76,7 +82,7 @@ C09(e) ==
       THEN {V9("a version persisted after a failed operation violates the shape invariants at its recorded height")} ELSE {})
      \cup (IF e.psize = n THEN {}
            \* named deviation (known finding C09-insert-grow-size): the entry went in, the grow step failed, the size was not incremented
-           ELSE IF e.call.op = "ins" /\ e.phase = "grow" /\ e.psize = n - 1
+           ELSE IF GrowingInsert(e, Normal(e)) /\ e.psize = n - 1
            THEN {V9("after an Insert that failed in its grow step the persisted size is one less than the reachable entries")}
            ELSE {V9("the size recorded in a version persisted after a failed operation differs from its reachable entries")})
 
